@@ -189,6 +189,8 @@ fn main() {
                     }
                     continue;
                 }
+                let lpats: Vec<String> = spec["local_pats"].as_array().map(|a| a.iter().map(|x| x.as_str().unwrap().to_string()).collect()).unwrap_or_default();
+                if !lpats.is_empty() && !lpats.iter().any(|p| inst.name().contains(p.as_str())) { continue; }
                 if spec["local_roots"].as_bool().unwrap_or(true) && inst.has_body() && seen.insert(inst.mangled_name()) {
                     let sig = inst.fn_abi().ok().map(|a| json!({"args": a.args.iter().map(|x| x.ty).collect::<Vec<_>>(), "ret": a.ret.ty}));
                     if let Some(a) = inst.fn_abi().ok() { for x in a.args.iter() { d.dump_ty(x.ty); } d.dump_ty(a.ret.ty); }
